@@ -48,7 +48,7 @@ def run(chk: harness.Check):
         "space the builder will index (names, symbols, aliases and their declared SI expansions) and checks it is collision-free, that best "
         "lists name units of their own quantity and system, and that fraction entries name existing units; D4 compares the key paths used in "
         "units.toml with the string keys build.rs reads; D5-D7 pin the empty-best rejection, alias carry-over and remove→edit→add re-indexing order of the extend "
-        "machinery; D8: in finish the best lists and the fractions configuration are computed after apply_extend_groups, which follows SI expansion; D11: every iteration of the quantity-group loop of add_units_file examines the group's best list; D10: every join takes data and precedence from the same incoming layer and joins same-named fields; join_alias_vec / join_prefixes implement Before / After / Override as documented; D9: "
+        "machinery; D8: in finish the best lists and the fractions configuration are computed after apply_extend_groups, which follows SI expansion; D12: a layer's extend block is only ever pushed onto self.extend; D11: every iteration of the quantity-group loop of add_units_file examines the group's best list; D10: every join takes data and precedence from the same incoming layer and joins same-named fields; join_alias_vec / join_prefixes implement Before / After / Override as documented; D9: "
         "prefixed units are regenerated whole from the edited base unit (ratio = base.ratio * prefix.ratio()). Necessary conditions of 'consistent or rejected'; layer semantics are not decided.")
     chk.trusted = ["tables/panics.toml, narrow_arith.toml, progress.toml", "tomllib parse of units.toml", "synfacts extraction of build.rs string keys"]
     regions, entries = builder_regions(F)
@@ -65,6 +65,7 @@ def run(chk: harness.Check):
     d8_finish_order(chk, F)
     d10_precedence(chk, F)
     d11_every_part(chk, F)
+    d12_layers_kept(chk, F)
     import c09
     c09.d6_si_expansion(chk, F, "C16.D9-si-expansion")
     d3_shipped(chk)
@@ -228,6 +229,32 @@ def d8_finish_order(chk, F):
         chk.expect(b not in f.reach_from(a) and f.node_dominates(0, b), "C16.D8-finish-order", "finish|SI expansion first", f.where(b),
                    "units are SI-expanded after the extend groups were applied: extend entries cannot address or refresh the generated units",
                    sample=f"{f.where(b)}: SI expansion precedes apply_extend_groups")
+
+
+def d12_layers_kept(chk, F):
+    """Each layer's `extend` block is applied as its own group with its own precedence, in layer order: add_units_file only ever
+    PUSHES the incoming block onto self.extend; it does not merge it into a stored block (HashMap::extend would let a later
+    layer's entry replace an earlier layer's entry for the same key instead of joining their names)."""
+    from flow import resolve, show
+    fs = [g for g in F.find("ConverterBuilder::add_units_file") if not g.is_closure()]
+    if len(fs) != 1:
+        chk.fail("anchor-missing", "add_units_file", "", "anchor-missing: add_units_file not found")
+        return
+    f = fs[0]
+    touched = []
+    for g in F.region_funcs(f.key):
+        for b, t in g.calls():
+            a = t.get("args") or []
+            if not a:
+                continue
+            r = show(resolve(g, a[0]), -50)
+            if "self" in r and (".extend" in r) and "best" not in r:
+                touched.append((g, b, (callee_key(t) or "").rsplit("::", 1)[-1], r))
+    chk.floor("C16.D12-layers-kept", "uses of self.extend in add_units_file", len(touched), 1, f"{f.file}:{f.line}")
+    for g, b, m, r in touched:
+        chk.expect(m == "push", "C16.D12-layers-kept", f"add_units_file|self.extend.{m}", g.where(b),
+                   f"add_units_file applies `{m}` to the stored extend blocks ({r[:50]}): a layer's block must be pushed as a group of its own, not merged into "
+                   "an earlier one", sample=f"{g.where(b)}: self.extend.push(extend)")
 
 
 def d11_every_part(chk, F):
